@@ -1266,6 +1266,13 @@ def r11(ctx, cfg):
         if len(listed) == 1:
             rz = [c[1][2] for e, c in q.dominating_conditions(P, f, listed[0][0]) if c[0] == "bool" and c[1][0] == "is_zero" and not q.is_derived(c) and
                   contains(c[1][1][0], lambda x: x[0] == "call" and x[1] == SK + "get_rewards_internal")]
+        if not listed:
+            # the list made of an Option: `Vec::from_iter((!reward.amount.is_zero()).then_some(reward))`, `cond.then(|| reward).into_iter().collect()`
+            from vlib import pipeline
+            cs0 = pipeline.contents(P, F, f, a[4])
+            if len(cs0) == 1 and cs0[0].kind == "single" and is_reward(cs0[0].expr):
+                rok = True
+                rz = [c0[2] for c0 in cs0[0].conds if c0[0] == "is_zero" and contains(c0[1][0], lambda x: x[0] == "call" and x[1] == SK + "get_rewards_internal")]
         parts.append(("accumulated_rewards", rok))
         bad = [n for n, v in parts if not v]
         ok = not bad
